@@ -130,8 +130,9 @@ pub(crate) struct ValveProtocol {
 static PACKET_SIZE: usize = 6144;
 
 /// Upper bound for the announced size of a decompressed split response: a response has at
-/// most 255 packets and real ones stay far below this.
-const MAX_DECOMPRESSED_SIZE: usize = 16 * 1024 * 1024;
+/// most 255 packets and real ones stay far below this. (A few dozen bytes of bzip2 can inflate
+/// to the full announced size, and the buffer it is read into grows by doubling.)
+const MAX_DECOMPRESSED_SIZE: usize = 4 * 1024 * 1024;
 
 impl ValveProtocol {
     pub fn new(address: &SocketAddr, timeout_settings: Option<TimeoutSettings>) -> GDResult<Self> {
